@@ -175,7 +175,23 @@ func handBuilt(r *rand.Rand, g *docGen) *html.Node {
 		return n
 	}
 	txt := func(s string) *html.Node { return &html.Node{Type: html.TextNode, Data: s} }
-	switch r.Intn(9) {
+	switch r.Intn(11) {
+	case 9, 10:
+		// a widget built in memory: some words and a numbered pager, nothing above it and nothing beside it
+		n := el("div")
+		p := el("p")
+		p.AppendChild(txt(g.words(30)))
+		n.AppendChild(p)
+		cur := el("span")
+		cur.AppendChild(txt("1"))
+		n.AppendChild(cur)
+		for i := 2; i <= 3; i++ {
+			n.AppendChild(txt(" "))
+			a := el("a", "href", fmt.Sprintf("/story/view/%d", i))
+			a.AppendChild(txt(fmt.Sprint(i)))
+			n.AppendChild(a)
+		}
+		return n
 	case 0:
 		n := el("span")
 		n.AppendChild(txt(g.words(20)))
